@@ -190,3 +190,13 @@ Proof.
   intros [|[|[|i]]] Hi; simpl; try reflexivity. exfalso. apply (Nat.lt_irrefl 3). do 3 apply Nat.succ_lt_mono in Hi.
   inversion Hi.
 Qed.
+
+(* ---- tie to the source: the kernel the theorems above are about IS the loop of _transform.pyx.
+   Gen/TransformGen.v is regenerated from the .pyx by tools/py2v on every check; md_tuple is the
+   normalisation the code applies before the loop (metadata None -> a tuple of None). *)
+From BiomV Require Import Gen.TransformGen Proofs.GenBridgeProofs.
+Theorem transform_kernel_is_source : forall n indptr ids md len outs data,
+  kernel n indptr ids md outs data =
+  (let '(d, _, c) := transform_loop n indptr ids (md_tuple md len) data outs [] in (d, c)).
+Proof. exact transform_kernel_bridge. Qed.
+Print Assumptions transform_kernel_is_source.
